@@ -1,4 +1,4 @@
-"""C09 correspondence: a real AsyncProtocol (real StreamReader, real queues, 1..3 consumers)
+"""C09 correspondence: a real AsyncProtocol (real StreamReader, real queues, consumers_count 1..5)
 on a fake transport under the virtual loop, fed with byte streams of enveloped frames in
 batches; compared with the pool machine of Model/Pool.lean, and C09.spec judged by the Lean
 driver on what the implementation showed.
@@ -189,7 +189,7 @@ def run_case(case):
                     owner = loc.get("self")
                     creator = asyncio.current_task(lp)
                     if isinstance(owner, PhysicalDevice) and creator is not None and creator in proto.tasks \
-                            and loc.get("name") != "connected":
+                            and loc.get("name") not in ("connected", "frame_errors", "loaded"):   # link state, set-up outcome (C16)
                         log.append((owner, str(loc.get("name")), canon_value(loc.get("value"))))
             except Exception as e:  # noqa: BLE001
                 log.append((None, "harness-error", repr(e)))
@@ -308,7 +308,7 @@ def F(kind, payload=b"", sender=ECOMAX, env="ok", rcpt=86):
 
 
 def marker(i):
-    return F(PASSWORD, b"\x04" + b"%04d" % (i % 10000))
+    return F(PASSWORD, b"\x04" + b"%04d" % (i % 10000), rcpt=0 if i % 7 == 3 else 86)
 
 
 def valid(kind, rng):
@@ -323,7 +323,7 @@ def out_of_table(rng):
     """payloads with ids / dates outside the tables"""
     r = rng.randrange(7)
     if r == 0:   # regulator data schema with a type id >= 17
-        n = rng.randint(1, 3)
+        n = rng.choice([1, 2, 3, 4, 5])
         body = b"".join(bytes([rng.choice([17, 18, 40, 255]), rng.randrange(256), rng.randrange(4)]) for _ in range(n))
         return F(213, bytes([n, 0]) + body)
     if r == 1:   # alert dated Feb 31 / Apr 31 / Feb 30 (the controller's 31-day months)
@@ -359,9 +359,9 @@ def undecodable(rng, kinds=None):
 def request(rng):
     r = rng.random()
     if r < 0.4:
-        return F(CD_REQ)
+        return F(CD_REQ, rcpt=rng.choice([86, 86, 0]))      # addressed to the library, or broadcast
     if r < 0.8:
-        return F(PV_REQ)
+        return F(PV_REQ, rcpt=rng.choice([86, 86, 0]))
     if r < 0.88:
         return F(rng.choice([CD_REQ, PV_REQ]), sender=ECOSTER)          # not the controller: no reply
     if r < 0.94:
@@ -397,7 +397,7 @@ def rebatch(rng, frames, mode=None):
 
 
 def mixed_case(rng, n=None, length=None):
-    n = n or rng.randint(1, 3)
+    n = n or rng.choice([1, 2, 3, 3, 4, 5])
     length = length or rng.randint(4, 20)
     frames, mk = [], 0
     if rng.random() < 0.6:
@@ -439,7 +439,7 @@ def truncation_cases(rng, points):
     rng.shuffle(todo)
     i, cid = 0, 0
     while i < len(todo):
-        n = 1 + cid % 3
+        n = 1 + cid % 5
         take = rng.choice([n + 1, 2 * n + 1, 7])
         chunk = todo[i:i + take]
         i += take
@@ -480,7 +480,7 @@ def big_cases(rng, k):
         frames = [marker(0), big_frame(rng, True), marker(1), F(CD_REQ), big_frame(rng, False), marker(2), F(PV_REQ)]
         if i % 3 == 2:
             frames.insert(2, big_frame(rng, True))
-        yield dict(consumers=1 + i % 3, net=i % len(NETS), batches=rebatch(rng, frames, mode=["one", "single", "random"][i % 3]))
+        yield dict(consumers=1 + i % 5, net=i % len(NETS), batches=rebatch(rng, frames, mode=["one", "single", "random"][i % 3]))
 
 
 def burst_cases(rng, sizes):
@@ -500,7 +500,7 @@ def burst_cases(rng, sizes):
             else:
                 frames.append(skipped(rng))
         tail = [marker(mk), F(CD_REQ), marker(mk + 1)]
-        yield dict(consumers=1 + i % 3, net=i % len(NETS), batches=[frames, tail], hold=True)
+        yield dict(consumers=1 + i % 5, net=i % len(NETS), batches=[frames, tail], hold=True)
 
 
 def random_net(rng):
@@ -633,6 +633,38 @@ def shrink(case, budget=120):
     return cur
 
 
+def loss_with_backlog(res):
+    """NOT judged (reported as a note): the connection is lost while more frames are pending than there are consumers
+    (all consumers held up in the first device creation), the class loading then completes: every consumer handles the
+    frame it holds, finds `connected` cleared and ends; the frames still queued are never taken, and a later shutdown()
+    waits for the read queue for ever (a sibling of finding F1, on the read queue)"""
+    with pipefake.Driven(hold_devices=True) as loop:
+        proto = AsyncProtocol()
+        reader, writer = asyncio.StreamReader(), pipefake.FakeWriter()
+        loop.call_soon(proto.connection_established, reader, writer)
+        loop.settle()
+        reader.feed_data(b"".join(wire(marker(i)) for i in range(5)))
+        loop.settle()
+        reader.feed_eof()
+        loop.settle()
+        while loop.held:
+            loop.release(0)
+            loop.settle()
+        queued = proto._queues.read.qsize()
+        alive = sum(1 for t in proto.tasks if t.get_name().startswith("frame_consumer") and not t.done())
+        sd = loop.create_task(proto.shutdown())
+        loop.settle()
+        loop.settle(until=loop.time() + 600.0)
+        loop.settle()
+        done = sd.done()
+        if not done:
+            sd.cancel()
+    res.extra["loss_with_backlog"] = dict(frames=5, consumers=3, left_in_read_queue=queued, consumers_alive=alive, shutdown_completes=done)
+    if not done:
+        res.notes.append("finding candidate (not judged): connection lost with 5 frames pending in front of 3 consumers held in the first "
+                         f"device creation -> {queued} frames stay in the read queue with no consumer left, shutdown() never returns")
+
+
 def parse_case(line):
     return json.loads(line)
 
@@ -640,7 +672,7 @@ def parse_case(line):
 def run(ctx):
     rng = random.Random(ctx["seed"] * 15485863 + 9)
     res = Result("C09")
-    res.rule = ("sequence of enveloped frames in batches (1..3 consumers, 4 network configurations + random): captured payloads of every "
+    res.rule = ("sequence of enveloped frames in batches (consumers_count 1..5, frames addressed to the library or broadcast, 4 network configurations + random): captured payloads of every "
                 "decodable kind cut at truncation points, random payloads, out-of-table ids (schema type >= 17, schedule >= 40, "
                 "31-day-month alert dates, counts beyond the payload), controller requests 64/48 (and from ecoSTER / addresses "
                 "without a device class), other requests, frames the reader rejects; bursts of undecodable frames larger than the "
@@ -676,6 +708,7 @@ def run(ctx):
         if frs:
             k = rng.randint(1, min(len(frs), 8))
             streams.append(b"".join(wire(fr) for fr in frs[:k]))
+    loss_with_backlog(res)
     producer.run_section(res, rng, 400 if ctx["tier"] == "quick" else 6000, "C09", streams)
     res.rule += ("; producer stage: byte streams of such frames and noise x write-fault scripts (OSError / timeout at any cycle), "
                  "puts by other tasks at any cycle boundary, foreign disconnects, end of stream or silence, compared with the "
